@@ -127,7 +127,24 @@ def check(chk):
     good = len(rm) == 1
     if good:
         s = src(rm[0])
-        good = 'old_host.endpoint not in found_hosts' in s and 'self._cluster.remove_host(old_host)' in s and 'should_rebuild_token_map = True' in s
+        good = 'old_host.endpoint not in found_hosts' in s and 'self._cluster.remove_host(old_host)' in s
+    if good:
+        # a removal always leads to a rebuild (when a partitioner is known): no path from remove_host(...) leaves the function without rebuild_token_map(...)
+        g_rm = CFG(rf)
+
+        def _st(n, c):
+            removed, rebuilt = c
+            if n.kind == 'stmt' and n.ast is not None:
+                t_ = src(n.ast)
+                if 'self._cluster.remove_host(old_host)' in t_:
+                    removed = True
+                if 'rebuild_token_map(' in t_:
+                    rebuilt = True
+            return (removed, rebuilt)
+        fl_rm = Flow(g_rm, (False, False), _st)
+        for fa, c in fl_rm.at(g_rm.exit):
+            if c[0] and not c[1] and fa.knows('partitioner') is not False:
+                good = False
     chk.judge(good, 'C42.change', rf, 'known host absent from the rows: remove_host and flag', 'vanished hosts are not removed / do not raise the flag')
     chk.judge(src(rf).index('for row in peers_result') < src(rf).index('all_hosts()'), 'C42.change', rf, 'removal pass runs after every row was seen', 'removal pass order changed')
     g = CFG(rf)
